@@ -3,9 +3,13 @@
 usage: store_mutants.py [ID-VAR ...]"""
 import json, os, shutil, subprocess, sys, concurrent.futures as cf
 IDS = ["C01","C02","C03","C04","C05","C06","C07","C08","C09","C10","C11","C12","C13","C15","C16","C17","C19","C20"]
+BASE = os.environ.get("MUTBASE", "/tmp/mut")
+TAG = os.environ.get("MUTTAG", "")
+
+
 def one(key):
     pid, var = key.split("-")
-    src = "/tmp/mut/%s.out/%s" % (pid, var)
+    src = "%s/%s.out/%s" % (BASE, pid, var)
     if not os.path.isdir(src):
         return key, None
     patch = os.path.join(src, "patch.ported.diff")
@@ -14,7 +18,7 @@ def one(key):
         patch = os.path.join(src, "patch.diff")
     subprocess.run(["/verif/tools/confirm_mutant.sh", pid, var, patch], stdout=subprocess.DEVNULL, stderr=subprocess.DEVNULL, cwd="/tmp")
     try:
-        res = json.load(open("/tmp/confirm/%s-%s.json" % (pid, var)))
+        res = json.load(open("/tmp/confirm/%s-%s%s.json" % (pid, var, TAG)))
     except Exception as e:
         return key, {"error": str(e)}
     res["ported"] = ported
@@ -29,17 +33,17 @@ def main():
             print(key, "missing"); continue
         ok = res.get("applies") == 1 and "100% tests passed" in res.get("suite", "") and res.get("demo_exit_with_patch") not in ("0", "n/a") and res.get("demo_exit_without_patch") == "0"
         print(key, "CONFIRMED" if ok else "NOT CONFIRMED", res)
-        dst = "/verif/seeded/" + key
+        dst = "/verif/seeded/" + key + TAG
         if os.path.exists(dst):
             shutil.rmtree(dst)
         if not ok:
             continue
         pid, var = key.split("-")
-        src = "/tmp/mut/%s.out/%s" % (pid, var)
+        src = "%s/%s.out/%s" % (BASE, pid, var)
         shutil.copytree(src, dst, ignore=shutil.ignore_patterns("patch.diff", "patch.ported.diff", "__pycache__", "out.*.txt"))
-        shutil.copy("/tmp/confirm/%s.patch" % key, os.path.join(dst, "patch.diff"))
+        shutil.copy("/tmp/confirm/%s%s.patch" % (key, TAG), os.path.join(dst, "patch.diff"))
         readme = open(os.path.join(src, "README.md")).read() if os.path.exists(os.path.join(src, "README.md")) else ""
-        meta = {"property": pid, "variant": var, "origin": "independent sub-agent given only the property text and a scratch worktree",
+        meta = {"property": pid, "variant": var, "origin": "independent sub-agent given only the property text and a scratch worktree" + (" (second round: told which ideas were already taken)" if TAG else ""),
                 "ported_to_fixed_tree": res["ported"],
                 "needs_to_manifest": "see README.md (section on what is needed for it to manifest)",
                 "confirmed_at_repo_commit": res["head"],
